@@ -508,6 +508,38 @@ def check_induced(prog: Program, res: Result) -> None:
         res.error("R-INDUCED: bond / neighbour comprehension of "
                   "MolGraph.subgraph not recognised")
     # descriptors / changes --------------------------------------------------
+    # set forms of "all atoms of the descriptor are kept": S >= set(d.atoms),
+    # set(d.atoms) <= S, S.issuperset(d.atoms), set(d.atoms).issubset(S) test
+    # the None placeholder against S unless it is taken out explicitly
+    judged = set()
+    for K in ("StereoMolGraph", "StereoCondensedReactionGraph"):
+        for fi in chain_of(prog, K, "subgraph"):
+            if fi.qual in judged:
+                continue
+            judged.add(fi.qual)
+            for node in ast.walk(fi.node):
+                txt = None
+                if isinstance(node, ast.Compare) and len(node.ops) == 1 and \
+                        isinstance(node.ops[0], (ast.GtE, ast.LtE)):
+                    txt = norm(node, 120)
+                elif isinstance(node, ast.Call) and isinstance(
+                        node.func, ast.Attribute) and node.func.attr in (
+                        "issubset", "issuperset"):
+                    txt = norm(node, 120)
+                if txt is None or not re.search(r"\.atoms\b", txt) or \
+                        "len(" in txt:
+                    continue
+                inst = f"{fi.short}: `{txt}` leaves the placeholder out"
+                if "None" in txt:
+                    res.ok("R-INDUCED", inst, fi.loc(node))
+                else:
+                    res.bad("R-INDUCED", f"{fi.short}: set-form filter "
+                            f"{txt[:60]}", fi.loc(node),
+                            f"{fi.short}: `{txt}` tests the None placeholder "
+                            "against S (None is never an atom of the graph), "
+                            "so descriptors and stereo changes with a lone "
+                            "pair are dropped even from subgraph(all atoms)",
+                            instance=inst)
     for K in ("StereoMolGraph", "StereoCondensedReactionGraph"):
         seen_slots = set()
         for fi in chain_of(prog, K, "subgraph"):
